@@ -75,3 +75,11 @@ Definition ids_ok (ms : list mig) (d : dbstate) : bool :=
 Definition plan_bound (o : opts) (ms : list mig) : nat :=
   S (fold_right (fun m acc => List.length (stmts_of o m) + 1 + acc) 0 ms).
 Definition steps_bound (o : opts) (ms : list mig) : nat := 5 + plan_bound o ms.
+
+(* ---------- histories without transaction control inside statements ---------- *)
+(* (MigratorX.v models the others; on plain histories it coincides with Migrator.v / Locking.v) *)
+From VV.MIG Require Export MigratorX.
+Definition plain_ms (o : opts) (ms : list mig) : bool :=
+  forallb (fun m => forallb (fun s => negb (has_ctl s)) (stmts_of o m)) ms.
+Definition lift_p (p : pinst) : pinst_x := mkPX (p_inst p) (map XI (p_todo p)) (p_faults p).
+Definition lift_sys (s : system) : system_x := mkSysX (s_db s) (map lift_p (s_insts s)).
